@@ -71,7 +71,14 @@ TProgs == <<
   \* drops references to the same object and calls it
   << Let("B", V("A")), Let("T", Call("tab", <<I(3), V("A")>>)), Let("U", Call("tup", <<I(1), V("A")>>)), Let("B", NullC),
      For("I", I(1), I(20), NoExpr, "auto", <<Let("C", Mem(V("T"), "at", <<I(0)>>)), Let("T", Call("tab", <<I(2), V("C")>>)), Let("C", NullC)>>),
-     PrintS(<<Mem(V("A"), "tag", <<>>), Mem(Mem(V("T"), "at", <<I(1)>>), "id", <<>>)>>), Let("T", NullC), Let("U", NullC) >>
+     PrintS(<<Mem(V("A"), "tag", <<>>), Mem(Mem(V("T"), "at", <<I(1)>>), "id", <<>>)>>), Let("T", NullC), Let("U", NullC) >>,
+  \* handled errors of several kinds in a loop, each handler reading the error being handled (error@1, more than once)
+  << Let("W", Str("")), Let("N", I(0)),
+     For("I", I(1), I(40), NoExpr, "auto",
+         <<Begin(<<If(Bin("==", Bin("%", V("I"), I(3)), I(0)), <<RaiseS("E_A")>>, <<>>), If(Bin("==", Bin("%", V("I"), I(3)), I(1)), <<RaiseS("E_B")>>, <<>>), Let("X", Bin("/", I(1), I(0)))>>,
+                 <<When("E_A", <<Let("W", Bin("+", V("W"), Item(Call("error", <<>>), 1)))>>),
+                   When("OTHERS", <<Let("W", Bin("+", V("W"), Item(Call("error", <<>>), 1))), Let("W", Bin("+", V("W"), Item(Call("error", <<>>), 1))), Let("N", Bin("+", V("N"), I(1)))>>)>>)>>),
+     PrintS(<<Mem(V("W"), "count", <<>>), Str(" "), V("N")>>) >>
 >>
 ObjPrelude == <<Let("A", OCtor(I(1)))>>
 TScenario(m, n, reps) ==
